@@ -5,6 +5,7 @@ PROPS = {
         direct("claim-routing", "TestC06ClaimRouting"),
         rapid("payouts", "TestC06Payouts", dict(shards=8, checks=150, timeout=900), dict(shards=16, checks=3000, timeout=6000)),
         rapid("minerpayouts", "TestC06MinerPayouts", dict(shards=8, checks=150, timeout=900), dict(shards=16, checks=2000, timeout=6000)),
+        rapid("nooutputs", "TestC06NoOutputs", dict(shards=4, checks=150, timeout=900), dict(shards=16, checks=1500, timeout=6000)),
         rapid("v2payouts", "TestC06V2Payouts", dict(shards=8, checks=150, timeout=900), dict(shards=16, checks=3000, timeout=6000)),
         rapid("rapid", "TestC06", dict(shards=16, checks=300, timeout=900), dict(shards=16, checks=3000, timeout=6000)),
     ]),
